@@ -72,6 +72,9 @@ CONSUMERS = [
     ("unused", "c(X) :- db(X,_)."),
     ("neg_head", "c(X) :- db(X,_). not {MA} :- db(X,X)."),
     ("neg_head_only", "not {M} :- db(X,Y), X < Y. c(X) :- db(X,_)."),
+    ("dneg_head", "c(X) :- db(X,_). not not {MA} :- db(X,X)."),
+    ("dneg_head_only", "not not {M} :- db(X,Y), X < Y. c(X) :- db(X,_)."),
+    ("dneg_head_anon", "c(X) :- db(X,_). not not {MAA} :- db(X,X)."),
     ("edge", "c(X) :- db(X,_). #edge (X,Y) : {M}."),
     ("edge_anon", "c(X) :- db(X,_). #edge (X,X+1) : {MA}."),
     ("classneg_body", "c(X) :- db(X,_). :- db(X,_), -{MA}."),
